@@ -21,7 +21,12 @@ def main(a):
     ok = True
     try:
         binary, _ = chk.build(workdir)
-        families = ["TestC04", "TestC01", "TestC13", "TestC08", "TestC10", "TestC09", "TestC07", "TestC20", "TestC02", "TestC03"]
+        fine, msg = chk.build_fine(workdir)
+        if fine is None:
+            print("selftest: fine-grained build failed: " + str(msg))
+            return 2
+        families = ["TestC04", "TestC01", "TestC13", "TestC08", "TestC10", "TestC09", "TestC07", "TestC20", "TestC02", "TestC03",
+                    "fine:TestC12", "fine:TestC02", "fine:TestC08", "fine:TestC13", "fine:TestC04", "fine:TestC09"]
         evals = 40 if a.tier == "quick" else 250
         seeds = [1, 2] if a.tier == "quick" else [1, 2, 3, 4, 5, 6, 7, 8]
         procs = []
@@ -31,13 +36,17 @@ def main(a):
                     for rep in range(2 if gmp == 4 else 1):
                         tag = "%s-s%d-g%d-r%d" % (fam, seed, gmp, rep)
                         env = chk.goenv()
+                        wbin, test = binary, fam
+                        if fam.startswith("fine:"):
+                            wbin, test = fine, fam[5:]
+                            env["VERIF_FINE"] = "1"
                         env.update({"VERIF_SEED": str(seed), "VERIF_WORKER": "0", "VERIF_WORKERS": "1", "VERIF_BUDGET_S": "3600",
                                     "VERIF_MAX_EVALS": str(evals), "VERIF_OUT": os.path.join(workdir, tag + ".json"),
                                     "VERIF_TRACE_HASHES": os.path.join(workdir, tag + ".trace"), "VERIF_MAX_VIOLATIONS": "1000",
                                     "VERIF_KNOWN": os.path.join(ROOT, "known_findings.json"), "VERIF_REPLAY_DIR": workdir,
                                     "TMPDIR": workdir, "GOMAXPROCS": str(gmp), "VERIF_C20_ALL_CODES": "0"})
                         log = open(os.path.join(workdir, tag + ".log"), "w")
-                        p = subprocess.Popen([binary, "-test.run", "^%s$" % fam, "-test.count=1", "-test.timeout=2h"],
+                        p = subprocess.Popen([wbin, "-test.run", "^%s$" % test, "-test.count=1", "-test.timeout=2h"],
                                              cwd=os.path.join(chk.SIM, "props"), env=env, stdout=log, stderr=subprocess.STDOUT)
                         procs.append((fam, seed, tag, p, log))
                         while sum(1 for x in procs if x[3].poll() is None) >= 16:
